@@ -126,8 +126,8 @@ PAIRS: List[Tuple[str, str, str, List[Step]]] = [
         ("warn unsupported", P("self.config.log.warning", None, awaited=True, guard=("self.startup.is_set()", False)), P("self.config.log.warning", None, awaited=True, guard=("self.startup.is_set()", False)), ""),
         ("log shutdown error", P("self.config.log.exception", None, awaited=True, guard=("self.shutdown.is_set()", False)), P("self.config.log.exception", None, awaited=True, guard=("self.shutdown.is_set()", False)), ""),
         ("log late error", P("self.config.log.exception", None, awaited=True, guard=("self.shutdown.is_set()", True)), P("self.config.log.exception", None, awaited=True, guard=("self.shutdown.is_set()", True)), ""),
-        ("release startup", P("self.startup.set", [], in_finally=True), P("self.startup.set", [], in_finally=True), ""),
-        ("release shutdown", P("self.shutdown.set", [], in_finally=True), P("self.shutdown.set", [], in_finally=True), ""),
+        ("release startup", P("self.startup.set", [], in_finally=True, unordered=True), P("self.startup.set", [], in_finally=True, unordered=True), ""),
+        ("release shutdown", P("self.shutdown.set", [], in_finally=True, unordered=True), P("self.shutdown.set", [], in_finally=True, unordered=True), ""),
         ("close send channel", None, P("self.app_send_channel.aclose", [], awaited=True, in_finally=True), "D8: trio memory channels must be closed"),
         ("close receive channel", None, P("self.app_receive_channel.aclose", [], awaited=True, in_finally=True), "D8"),
     ]),
